@@ -17,7 +17,15 @@ RULE = ('grid (exhaustive): every primitive type x parameter combinations at the
         'child class instances). Oracle: reference predicate derived from the model: accept => no '
         'exception and read-back equals the value up to int->float and tuple->list; reject => '
         'ValidationError and nothing else. non-trivial = value within one step of the accept/reject '
-        'boundary (all grid points; mutated random values); distinct by (type, value) hash.')
+        'boundary (all grid points; mutated random values); distinct by (type, value) hash. '
+        'histories (model-based, stateful): sequences of 4-18 operations on one struct instance - assign a '
+        'valid value, assign a value the predicate rejects, assign None, delete, read, encode, decode the '
+        'encoding and continue with the result, compare with a fresh instance, rebuild through the '
+        'constructor - against a dict model; after every step an independent walker compares the set / unset '
+        'state and value of every field with the model, reads of unset fields give None / the declared '
+        'default / AttributeError, and encodings equal the reference encoding of the model; non-trivial = '
+        'history with a refused assignment, delete or None followed by an observation.')
+TECHNIQUE = 'property-based testing (Hypothesis): exhaustive grid, random members and model-based operation histories against a reference predicate'
 ASSUMPTIONS = ['bool where a number is expected, bytearray for Bytes, a child-union instance where its '
                'parent union is expected and incomplete struct instances are UNSPEC (not judged).']
 
